@@ -189,6 +189,12 @@ func (g *G) Expr(t string, d int) string {
 			return fmt.Sprintf("(%s ? %s : %s)", g.Expr("bool", d-1), g.Expr("ints", d-1), g.Expr("ints", d-1))
 		case 6:
 			return fmt.Sprintf("(%s..%s)", g.Expr("int", d-1), g.Expr("int", d-1))
+		case 7:
+			// a collection that depends on the enclosing closure's element: it must be evaluated in the outer scope
+			if g.depth > 0 && g.elem[len(g.elem)-1] == "int" {
+				return g.pick("(1..#)", "[#, 2, 4]", "(#..3)", "[#, #]")
+			}
+			return g.leaf(t)
 		default:
 			return g.leaf(t)
 		}
